@@ -26,6 +26,7 @@ CHECKS = {
     'C12': 'checks_runs.check_c12',
     'C13': 'checks_wire.check_c13',
     'C16': 'checks_load.check_c16',
+    'C17': 'checks_load.check_c17',
     'C18': 'checks_misc.check_c18',
     'C19': 'checks_misc.check_c19',
     'C20': 'checks_misc.check_c20',
